@@ -1,6 +1,7 @@
 CONSTANTS
   Deep = FALSE
   FixFmt0 = TRUE
+  FixSymInv = TRUE
 SPECIFICATION Spec
 INVARIANTS DesignOK
 CHECK_DEADLOCK FALSE
